@@ -1,6 +1,7 @@
 import DawgieVerif.Model.Sexp
 import DawgieVerif.Model.SchedIO
 import DawgieVerif.Model.ReprocessIO
+import DawgieVerif.Model.WorkerIO
 
 open DawgieVerif
 
@@ -8,6 +9,7 @@ def dispatch (x : Sx) : Sx :=
   match x with
   | Sx.list (Sx.atom "sched" :: rest) => Sched.handle rest
   | Sx.list (Sx.atom "repro" :: rest) => Reprocess.handle rest
+  | Sx.list (Sx.atom "worker" :: rest) => Worker.handle rest
   | _ => Sx.err "model"
 
 partial def loop (h : IO.FS.Stream) (out : IO.FS.Stream) : IO Unit := do
